@@ -45,6 +45,46 @@ def kinds(spec):
 def dbits(x): return struct.unpack("<Q", struct.pack("<d", x))[0]
 
 
+def gen_copy_case(rng, counter):
+    """two related space trees (a name identifies a space: shared names carry identical subtrees; names unique within a tree)
+    -> (COPY line, dest leaf names, source leaf names, dest values, source values)"""
+    def fresh():
+        counter[0] += 1; return counter[0]
+    def rand_tree(depth):
+        if depth == 0 or rng.random() < 0.45: return ("L", fresh())
+        return ("C", fresh(), [rand_tree(depth - 1) for _ in range(rng.randint(1, 3))])
+    def nodes(t):
+        out = [t]
+        if t[0] == "C":
+            for c in t[2]: out += nodes(c)
+        return out
+    def names(t): return set(n[1] for n in nodes(t))
+    dest = rand_tree(rng.randint(0, 3))
+    r = rng.random()
+    if r < 0.08: src = dest                                            # the same space
+    elif r < 0.16: src = rng.choice(nodes(dest))                         # a subspace of the destination
+    else:
+        picked = []; used = set()
+        cands = nodes(dest); rng.shuffle(cands)
+        for n in cands[:rng.randint(0, 4)]:
+            if not (names(n) & used): picked.append(n); used |= names(n)
+        import copy as _copy
+        def build(depth):
+            nonlocal picked
+            if picked and rng.random() < 0.5: return _copy.deepcopy(picked.pop())
+            if depth == 0 or rng.random() < 0.35: return ("L", fresh())
+            return ("C", fresh(), [build(depth - 1) for _ in range(rng.randint(1, 3))])
+        src = build(rng.randint(0, 3))
+        if picked: src = ("C", fresh(), [src] + [_copy.deepcopy(x) for x in picked]); picked = []
+        if r > 0.9 and dest[0] == "C": dest, src = src, dest               # the destination inside the source
+    def spec(t): return "L %d" % t[1] if t[0] == "L" else "C %d %d %s" % (t[1], len(t[2]), " ".join(spec(c) for c in t[2]))
+    def leaves(t): return [t[1]] if t[0] == "L" else [x for c in t[2] for x in leaves(c)]
+    dl, sl = leaves(dest), leaves(src)
+    dv = [rng.randint(-999, 999) for _ in dl]; sv = [rng.randint(1000, 9999) for _ in sl]
+    line = ("COPY %s | %s | %s | %s" % (spec(dest), spec(src), " ".join(map(str, dv)), " ".join(map(str, sv)))).replace("  ", " ")
+    return line, dl, sl, dv, sv
+
+
 def main():
     c = vf.Check("C09", "proof")
     quick = c.tier == "quick"
@@ -60,6 +100,7 @@ def main():
         c.finish()
     rng = c.rng
     il, ml = [], []     # implementation / model script lines (parallel)
+    name_counter = [0]; copy_meta = {}
     nspaces = 0
     if c.replay:
         for l in open(c.replay):
@@ -106,6 +147,9 @@ def main():
                 il.append(g); ml.append(g)
             if i % 10 == 0:
                 il.append("PARTIAL %d" % rng.randint(1, 10 ** 6)); ml.append("")
+            for _ in range(3):
+                cl, dl_, sl_, dv_, sv_ = gen_copy_case(rng, name_counter)
+                il.append(cl); ml.append(cl); copy_meta[cl] = (dl_, sl_, dv_, sv_)
     rc, o, e, s = vf.sh([drv], input="\n".join(il) + "\n", timeout=3000)
     c.step("correspond:impl", drv, s, rc == 0)
     rc2, o2, e2, s2 = vf.sh([model, "codec"], input="\n".join(x for x in ml) + "\n", timeout=3000)
@@ -114,6 +158,7 @@ def main():
     mo = [x for x in o2.split("\n")]
     # align: impl prints one line per op except GRAPH (2 lines); model prints nothing for "" lines, GRAPH 2 lines
     ii = mi = 0
+    ncopy = [0]
     ndiff = npred = 0; first_diff = first_pred = None
     cur_space = None
     distinct = set()
@@ -135,6 +180,24 @@ def main():
             elif a.split()[:1] != ["partial"]: pred(l, "no observation (crash?)")
             continue
         b = mo[mi] if mi < len(mo) else ""; mi += 1
+        if w[0] == "COPY":
+            ncopy[0] += 1
+            first, _, second = a.partition(" # ")
+            if first.strip() != b.strip(): diff(l, a, b)
+            dl_, sl_, dv_, sv_ = copy_meta[l]
+            srcv = dict(zip(sl_, sv_))
+            exp = [srcv.get(n, v) for n, v in zip(dl_, dv_)]
+            try:
+                fw = first.split(); flag = int(fw[1]); got = list(map(int, fw[3:]))
+                sw = second.split(); ncommon = int(sw[1]); flag2 = int(sw[3]); got2 = list(map(int, sw[5:]))
+            except Exception:
+                pred(l, "no observation for copyStateData (crash?): " + a[:80]); continue
+            if got != exp: pred(l, "copyStateData did not transfer exactly the common components: destination leaves %s, expected %s" % (got, exp))
+            if got2 != exp: pred(l, "getCommonSubspaces + copyStateData(subspaces) did not transfer exactly the common components: destination leaves %s, expected %s" % (got2, exp))
+            common = set(dl_) & set(sl_)
+            if (flag == 0) != (not common) and dl_ and sl_: pred(l, "copyStateData reports %s although %d leaf spaces are common" % (["NO_DATA_COPIED", "SOME_DATA_COPIED", "ALL_DATA_COPIED"][flag], len(common)))
+            if flag == 2 and not set(sl_) <= set(dl_): pred(l, "copyStateData reports ALL_DATA_COPIED although the source has leaves the destination lacks")
+            continue
         if w[0] == "SPACE":
             cur_space = l
             if a != b: diff(l, a, b)
@@ -186,6 +249,7 @@ def main():
         what = "a vertex that is both start and goal is written as START only (PlannerDataStorage::storeVertices): its goal mark is lost by store/load"
         if not c.known_finding("C09-start-and-goal-vertex", what):
             c.violation("implementation violates C09: " + what, "# C09 replay\n" + kf)
+    c.cov["partial_copies_compared"] = ncopy[0]
     c.cov.update({"evaluations": len(il), "traces_validated_against_impl": nspaces, "distinct_nontrivial": len(distinct),
                   "rule": "random nested compound spaces (depth <= 3 over R^n, SO2, SO3, time, discrete) with up to 12 states each (values incl. +-0, 1e300, denormals), state-set archives and planner-data graphs (tags, weighted edges, several starts, goals marked in descending order) with every byte prefix and a substituted space, related-space partial copies; non-trivial = distinct compound space",
                   "disagreements": ndiff, "predicate_failures": npred})
